@@ -124,13 +124,98 @@ type MySessGen struct {
 	// ColVal, when set, draws the value written to a column (searchable-column pools of the C09 layer).
 	ColVal func(t TableSpec, c ColSpec) Val
 	pg     *SessGen // owner of the searchable-value pools (EnableSearchPools)
+	lenSeq int
 }
 
 func (g *MySessGen) colVal(t TableSpec, c ColSpec) Val {
 	if g.ColVal != nil {
 		return g.ColVal(t, c)
 	}
-	return GenColVal(g.R, c)
+	return g.lenencClass(GenColVal(g.R, c), c)
+}
+
+// LenEncBoundaryLengths are the value lengths at which MySQL's length-encoded integer changes form (1 byte up to 250, 0xfb is
+// the NULL marker, 0xfc + 2 bytes from 251, 0xfd + 3 bytes from 65536).
+var LenEncBoundaryLengths = []int{250, 251, 252, 253, 65535, 65536}
+
+// CipherOverhead is the number of bytes the stored form of a column adds to its plaintext with the gothemis stand-in
+// (measured: AcraBlock 150, AcraStruct 201, searchable +33 for the blind index; masked columns: window + container of the rest).
+// It aims plaintext lengths at ciphertexts of 250 / 251 / 252 bytes; the layers count what really arrived at the database.
+func CipherOverhead(c ColSpec) int {
+	ov := 150
+	if c.Envelope == "acrastruct" {
+		ov = 201
+	}
+	if c.Kind == "search" {
+		ov += 33
+	}
+	return ov
+}
+
+// IsLenEncBoundary reports whether n is one of the boundary lengths.
+func IsLenEncBoundary(n int) bool {
+	for _, l := range LenEncBoundaryLengths {
+		if n == l {
+			return true
+		}
+	}
+	return false
+}
+
+// lenencClass resizes every seventh text / bytea value (configured or not) to a length at a length-encoding boundary: the
+// plaintext itself 250, 251, 252, 253, 65535, 65536 bytes long (what the client gets back after decryption, detokenization or
+// untouched), or - for encrypted columns - a plaintext whose stored form is 250, 251 or 252 bytes long (what a re-packed bound
+// parameter carries). The choice comes from a counter, not from the PRNG.
+func (g *MySessGen) lenencClass(v Val, c ColSpec) Val {
+	if v.Null || c.Name == "id" || (c.AppType != fakepg.Text && c.AppType != fakepg.Bytea) || (c.Kind == "token" && c.TokenType == "email") {
+		return v
+	}
+	g.lenSeq++
+	if g.lenSeq%7 != 0 {
+		return v
+	}
+	class := (g.lenSeq / 7) % 9
+	var want int
+	if class < len(LenEncBoundaryLengths) {
+		want = LenEncBoundaryLengths[class]
+	} else {
+		if c.Kind != "enc" && c.Kind != "search" && c.Kind != "mask" {
+			want = LenEncBoundaryLengths[class%3] // no stored form to aim at: 250 / 251 / 252 again
+		} else {
+			want = 250 + (class - len(LenEncBoundaryLengths)) - CipherOverhead(c)
+		}
+	}
+	if want < 10 {
+		return v
+	}
+	// the resized value must stay unique (markers are what the leak oracles look for): values too short to carry the
+	// generator's marker get one of their own in front
+	if len(v.Bytes()) < 18 {
+		mk := fmt.Sprintf("MKL%08x%07x", g.R.Uint32(), g.lenSeq)
+		if v.Type == fakepg.Text {
+			v.S = mk + v.S
+		} else {
+			v.B = append([]byte(mk), v.B...)
+		}
+	}
+	b := v.Bytes()
+	if v.Type == fakepg.Text {
+		// cut on a rune boundary, fill with ASCII
+		r := []rune(v.S)
+		for len(string(r)) > want {
+			r = r[:len(r)-1]
+		}
+		s := string(r)
+		v.S = s + strings.Repeat("p", want-len(s))
+		return v
+	}
+	out := make([]byte, want)
+	n := copy(out, b)
+	for i := n; i < want; i++ {
+		out[i] = byte(i*7 + 3)
+	}
+	v.B = out
+	return v
 }
 
 // NewMySessGen creates a generator.
